@@ -501,6 +501,11 @@ def run(ctx) -> None:
         r4_call(ctx, NF(ctx.program))
     ctx.rule("C13.R5", "builder context managers never swallow an exception: __exit__ answers None / False on every path", floor=3)
     r5_exit_never_swallows(ctx)
+    ctx.rule("C13.R6", "what the builders ask to refuse a non-dataflow wire: Hugr.port_type answers a type for dataflow ports only (shared with C06.R3)", floor=12)
+    from .c06 import r3_port_kinds
+    from ..nf import NF as _NF
+    with ctx.as_rule(C06_R3="C13.R6"):
+        r3_port_kinds(ctx, _NF(ctx.program))
     from .. import lints
     lints.arm(ctx)
 
